@@ -54,6 +54,7 @@ fn main() {
         "C12" => props::c12::run(chk),
         "C13" => props::c13::run(chk),
         "C14" => props::c14::run(chk),
+        "C15" => props::c15::run(chk),
         "C18" => props::c18::run(chk),
         _ => infra(&format!("no check for {id}")),
     }
